@@ -20,7 +20,7 @@ def run(tier, seed):
         # exhaustive: also the bounded model check of the quick tier (invariants on every state of every history)
         dict(name="C18_pair_exh", consts=bc.consts("pair", {"write", "enable", "loop", "wmr", "script"}, 3, sizes=(1, 3),
                                                    drains=(0, 1), wms=((1, 2), (2, 1), (0, 1)), durs=(0,), script_until=1),
-             units=(1, 4096), invariants=inv),
+             units=(4096,), invariants=inv),
         dict(name="C18_pair_rand", consts=bc.consts("pair", WM | {"flush"}, 10, wms=WMS, durs=(0,),
                                                     extras=("none", "wm0", "w1", "disR"), xkinds=("r",)), simulate=20, units=(1, 1000)),
         dict(name="C18_filt_" + fn, consts=FW(fn, 9), simulate=15, units=(1, 1000)),
